@@ -21,7 +21,7 @@ MODULE = {
     "functions": {
         "is_instagram_post_shortcode": {"types": {"value": "Str"}, "returns": "Bool", "ensures": ["result == (%s)" % (SC % "value")]},
         "is_instagram_username": {"types": {"value": "Str"}, "returns": "Bool", "ensures": ["result == %s" % (UN % ("value", "value"))]},
-        "is_instagram_url": {"types": {"url": "Obj"}, "returns": "Bool", "isinstance": {"url,SplitResult": False}, "ensures": []},
+        "is_instagram_url": {"types": {"url": "Obj", "hostname": "Opt[Str]"}, "returns": "Bool", "ensures": []},  # total: get_hostname swallows urlsplit's ValueError
         "parse_instagram_url": {
             "types": {"url": "Obj", "parsed": "Obj", "path": "Seq[Str]"},
             "returns": "Opt[Obj]", "raises": {"ValueError": None}, "ensures": [],
